@@ -215,6 +215,58 @@ def run(ctx):
                                     dict(key=k, fmt=fmt, field=field), fmt=fmt)
                         break
     R.extra['database_entries_rendered'] = nent
+    # the Lean renderer models (Props/C09 *_renders_every_field) against the three converters: the whole database in the order
+    # convert_references uses, plus entries with unusual shapes
+    if ctx.model_ok:
+        import random as _random
+        rr = _random.Random('render-%d' % ctx.seed)
+        entries = []
+        for k, entry in refdb.items():
+            if k == 'molssi_bse_schema' or not isinstance(entry, dict) or '_entry_type' not in entry:
+                continue
+            entries.append((k, bsort.sort_single_reference(copy.deepcopy(entry))))
+            entries.append((k, copy.deepcopy(entry)))
+        for i in range(ctx.n(60, 600)):
+            k, e = rr.choice(entries)
+            e = copy.deepcopy(e)
+            kind = rr.choice(['drop', 'extra_str', 'extra_list', 'type', 'empty_authors', 'shuffle', 'one_author'])
+            fs = [f for f in e if f != '_entry_type']
+            if kind == 'drop' and fs:
+                del e[rr.choice(fs)]
+            elif kind == 'extra_str':
+                e[rr.choice(['note', 'booktitle', 'publisher', 'url', 'x y'])] = rr.choice(['some text', 'a {b} c', '1990', ''])
+            elif kind == 'extra_list':
+                e[rr.choice(['editors', 'translators'])] = [rr.choice(['A, B.', 'Smith, J.', 'de la X, Y.']) for _ in range(rr.randrange(0, 3))]
+            elif kind == 'type':
+                e['_entry_type'] = rr.choice(['article', 'misc', 'unpublished', 'incollection', 'phdthesis', 'dataset', 'techreport', 'book', 'Article'])
+            elif kind == 'empty_authors':
+                e['authors'] = []
+            elif kind == 'shuffle':
+                its = list(e.items()); rr.shuffle(its); e = dict(its)
+            elif kind == 'one_author':
+                e['authors'] = ['Only, One']
+            entries.append(('%s-%s%d' % (k, kind, i), e))
+        rreqs, rexp = [], []
+        for k, e in entries:
+            if any(isinstance(v, list) and any(("'" in x or '\\' in x or not x.isprintable()) for x in v) for f, v in e.items() if f not in ('authors', 'editors')):
+                continue        # Python's repr of such a list switches quoting; the model covers the plain case
+            fields = [[f, (v if isinstance(v, list) else str(v))] for f, v in e.items() if f != '_entry_type']
+            for fmt in ('bib', 'ris', 'endnote'):
+                fn = rconv._converter_map[fmt]['function']
+                try:
+                    rexp.append(fn(k, e))
+                except Exception as ex:
+                    rexp.append('raise ' + type(ex).__name__)
+                rreqs.append(dict(op='render_ref', fmt=fmt, key=k, etype=e['_entry_type'], fields=fields))
+        rans = drive(rreqs)
+        for a, want, rq in zip(rans, rexp, rreqs):
+            if 'drv_error' in a:
+                raise DriverError(a['drv_error'])
+            R.ev()
+            R.count('render-model:' + rq['fmt'])
+            if a.get('text') != want:
+                R.disagree('render_ref', dict(key=rq['key'], fmt=rq['fmt']), str(a.get('text'))[:160], str(want)[:160], note='renderer model vs refconverters.' + rq['fmt'])
+        R.extra['renderings_compared_with_model'] = len(rreqs)
     reqs, meta = [], []
     for i in range(0, len(items), 600):
         for out in pmap(work, items[i:i + 600]):
